@@ -841,7 +841,7 @@ theorem good_stepL2 {c c' : Cfg} {tid : Tid} {t : Th} {alt : Bool} {lbl : String
       have hne : t.a.pc ≠ .eNext := by intro e; rw [e] at hkind; simp [pcKind] at hkind
       obtain ⟨-, -, -, -, -, hA, hB, -, -⟩ := stepThread_arm l s1' a' hst hne
       obtain ⟨hp1, hp2⟩ := stepThread_pc l s1' a' hst
-      obtain ⟨-, -, -, hOut, -⟩ := stepThread_end l s1' a' hst
+      obtain ⟨-, -, -, hOut, -⟩ := stepThread_out l s1' a' hst
       have hka' : a'.prog.kind = .batch := by rw [hprog']; exact hka
       have hc1' : s1'.timeout = false ∧ s1'.ignoreError = false :=
         ⟨by rw [k1]; exact hi.to1, by rw [k3]; exact hi.ig1⟩
@@ -940,7 +940,7 @@ theorem good_stepL2 {c c' : Cfg} {tid : Tid} {t : Th} {alt : Bool} {lbl : String
       obtain ⟨k1, -, k3⟩ := stepThread_const l s1' a' hst
       obtain ⟨htok', hprog', -⟩ := stepThread_data l s1' a' hst htok
       obtain ⟨hp1, -⟩ := stepThread_pc l s1' a' hst
-      obtain ⟨-, -, -, -, hOut⟩ := stepThread_end l s1' a' hst
+      obtain ⟨-, -, -, -, hOut⟩ := stepThread_out l s1' a' hst
       have hkind := kind_of_tok htok hns hnd
       rw [hka] at hkind
       have hka' : a'.prog.kind = .stopper := by rw [hprog']; exact hka
@@ -998,7 +998,7 @@ theorem good_stepL2 {c c' : Cfg} {tid : Tid} {t : Th} {alt : Bool} {lbl : String
     have hr' : (postProd tid t s2' b').role = .l2 := by rw [hrole]; exact hr
     have hst0 : t.started = true := by
       simp only [Th.started, hr, bne_iff_ne, ne_eq]; exact fun e => hn1 e
-    obtain ⟨hE1, hE2, hE3, -, -⟩ := stepThread_end l s2' b' hst
+    obtain ⟨hE1, hE2, hE3, -, -⟩ := stepThread_out l s2' b' hst
     cases hm : stopSeen t with
     | true =>
       -- inside a clean `_stop_enqueue`: the view normalises the arguments
